@@ -286,8 +286,14 @@ impl<TActor: ThreadLocalActor> ThreadLocalActorRuntime<TActor> {
         spawner: ThreadLocalActorSpawner,
         supervisor: Option<ActorCell>,
     ) -> Result<(ActorRef<TActor::Msg>, JoinHandle<()>), SpawnErr> {
-        // cannot start an actor more than once
-        if self.actor_ref.get_status() != ActorStatus::Unstarted {
+        // cannot start an actor more than once. A drain() issued before the start only
+        // closes the admission and marks the actor `Draining` (the status never moves
+        // backwards): the actor still has to come up, work off what was accepted and
+        // stop with "Drained".
+        if !matches!(
+            self.actor_ref.get_status(),
+            ActorStatus::Unstarted | ActorStatus::Draining
+        ) {
             return Err(SpawnErr::ActorAlreadyStarted);
         }
 
